@@ -109,7 +109,6 @@ impl Check for C12 {
             ctx.sig.str(f);
         }
         ctx.sig.u64(c.sched.seed);
-        ctx.sched = Some(c.sched.seed ^ msgs.len() as u64);
         // reference verdicts from the real per-filter predicate, combined by the stated rule
         let en = |k: FilterKind| filters.iter().filter(move |f| f.enabled && f.kind == k).collect::<Vec<_>>();
         let pos = en(FilterKind::Positive);
